@@ -4,4 +4,4 @@ go 1.26
 
 require github.com/google/go-tdx-guest v0.0.0
 
-replace github.com/google/go-tdx-guest => /tmp/seeded-et0nhr4i/repo
+replace github.com/google/go-tdx-guest => /repo
